@@ -533,3 +533,121 @@ pub(crate) struct MarketPriceOptions {
     pub(crate) allow_long_closed: bool,
     pub(crate) allow_short_closed: bool,
 }
+
+/// Verification hooks for property C29 (additive, off by default; see `crate::verif::c29`).
+#[cfg(feature = "verif-hooks")]
+pub(crate) mod verif_hooks_c29 {
+    use super::*;
+
+    pub(crate) fn try_adjust_price_with_max_deviation_factor(
+        factor: &u128,
+        price: &gmsol_utils::Price,
+        ref_price: Option<&Decimal>,
+    ) -> Option<gmsol_utils::Price> {
+        super::try_adjust_price_with_max_deviation_factor(factor, price, ref_price)
+    }
+
+    /// `try_adjust_price` on bare parts; returns the (possibly adjusted) price and the flag.
+    pub(crate) fn try_adjust_price(
+        feed_config: &FeedConfig,
+        price: gmsol_utils::Price,
+        ref_price: Option<Decimal>,
+    ) -> Result<(gmsol_utils::Price, bool)> {
+        let mut parts = OraclePriceParts {
+            oracle_slot: 0,
+            oracle_ts: 0,
+            price,
+            ref_price,
+            is_open: true,
+        };
+        let adjusted = super::try_adjust_price(feed_config, &mut parts)?;
+        Ok((parts.price, adjusted))
+    }
+}
+
+/// Verification hooks for property C24 (additive, off by default; see `crate::verif::c24`).
+#[cfg(feature = "verif-hooks")]
+pub(crate) mod verif_hooks_c24 {
+    use super::*;
+
+    /// Parsed oracle price: provider, slot, ts, price, ref price, is_open.
+    pub(crate) type Parsed = (
+        PriceProviderKind,
+        u64,
+        i64,
+        gmsol_utils::Price,
+        Option<Decimal>,
+        bool,
+    );
+
+    pub(crate) fn parse_from_feed_account<'info>(
+        clock: &Clock,
+        token_config: &TokenConfig,
+        account: &'info AccountInfo<'info>,
+        allow_closed: bool,
+    ) -> Result<Parsed> {
+        let p = OraclePrice::parse_from_feed_account(clock, token_config, account, allow_closed)?;
+        Ok((
+            p.provider,
+            p.parts.oracle_slot,
+            p.parts.oracle_ts,
+            p.parts.price,
+            p.parts.ref_price,
+            p.parts.is_open,
+        ))
+    }
+
+    pub(crate) fn validator_clock(v: &PriceValidator) -> &Clock {
+        v.clock()
+    }
+
+    pub(crate) fn validate_one(
+        v: &mut PriceValidator,
+        token_config: &TokenConfig,
+        provider: &PriceProviderKind,
+        oracle_ts: i64,
+        oracle_slot: u64,
+        price: &gmsol_utils::Price,
+        ref_price: Option<&Decimal>,
+    ) -> Result<()> {
+        v.validate_one(
+            token_config,
+            provider,
+            oracle_ts,
+            oracle_slot,
+            price,
+            ref_price,
+        )
+    }
+
+    pub(crate) fn merge_range(
+        v: &mut PriceValidator,
+        min_oracle_slot: Option<u64>,
+        min_oracle_ts: i64,
+        max_oracle_ts: i64,
+    ) {
+        v.merge_range(min_oracle_slot, min_oracle_ts, max_oracle_ts)
+    }
+
+    pub(crate) fn finish(v: PriceValidator) -> Result<Option<(u64, i64, i64)>> {
+        v.finish()
+    }
+
+    pub(crate) fn update_oracle_ts_and_slot(oracle: &mut Oracle, v: PriceValidator) -> Result<()> {
+        oracle.update_oracle_ts_and_slot(v)
+    }
+
+    pub(crate) fn primary_set(
+        oracle: &mut Oracle,
+        token: &Pubkey,
+        price: gmsol_utils::Price,
+        is_synthetic: bool,
+        is_open: bool,
+    ) -> Result<()> {
+        oracle.primary.set(token, price, is_synthetic, is_open)
+    }
+
+    pub(crate) fn primary_len(oracle: &Oracle) -> usize {
+        oracle.primary.len()
+    }
+}
